@@ -27,11 +27,14 @@ pub struct NetCfg {
     pub conn_limit: u32,
     pub policy: Policy,
     pub timeout_secs: u32,
+    /// accept loops sharing the one connection semaphore, each with its own SO_REUSEPORT socket
+    /// (what `--runtime-type current-thread --threads N` sets up); 1 = the plain server
+    pub listeners: u8,
 }
 
 impl Default for NetCfg {
     fn default() -> Self {
-        NetCfg { item_limit: 1024, conn_limit: 64, policy: Policy::None, timeout_secs: 60 }
+        NetCfg { item_limit: 1024, conn_limit: 64, policy: Policy::None, timeout_secs: 60, listeners: 1 }
     }
 }
 
@@ -75,6 +78,7 @@ pub struct NetWorld {
     pub mem: Arc<MemoryStore>,
     pub pol: Option<Arc<RandomPolicy>>,
     server: tokio::task::JoinHandle<std::io::Result<()>>,
+    extra_listeners: Vec<tokio::task::JoinHandle<std::io::Result<()>>>,
     pub cfg: NetCfg,
 }
 
@@ -101,12 +105,18 @@ impl NetWorld {
             let addr = SocketAddr::from((ip, port));
             let scfg = MemcacheServerConfig::new(cfg.timeout_secs, cfg.conn_limit, cfg.item_limit, 128);
             let mut server = MemcacheTcpServer::new(scfg, cache.clone());
+            let clones: Vec<MemcacheTcpServer> = (1..cfg.listeners.max(1)).map(|_| server.clone()).collect();
             let handle = rt.spawn(async move { server.run(addr).await });
             rt.block_on(async { tokio::time::sleep(Duration::from_millis(1)).await });
             if handle.is_finished() {
                 continue; // bind failed: port in use
             }
-            return Ok(NetWorld { rt, addr, clock, mem, pol, server: handle, cfg });
+            let mut extra_listeners = vec![];
+            for mut s2 in clones {
+                extra_listeners.push(rt.spawn(async move { s2.run(addr).await }));
+            }
+            rt.block_on(async { tokio::time::sleep(Duration::from_millis(1)).await });
+            return Ok(NetWorld { rt, addr, clock, mem, pol, server: handle, extra_listeners, cfg });
         }
         Err("could not bind a loopback port".into())
     }
@@ -122,7 +132,7 @@ impl NetWorld {
     }
 
     pub fn server_alive(&self) -> bool {
-        !self.server.is_finished()
+        !self.server.is_finished() && self.extra_listeners.iter().all(|h| !h.is_finished())
     }
 
     pub fn connect(&self) -> Result<NetClient, String> {
@@ -160,6 +170,9 @@ impl NetWorld {
 
 impl Drop for NetWorld {
     fn drop(&mut self) {
+        for h in &self.extra_listeners {
+            h.abort();
+        }
         self.server.abort();
     }
 }
